@@ -345,3 +345,77 @@ def target_parse_step():
 
 
 TARGETS["parse_step"] = target_parse_step
+
+
+def target_items_step():
+    """lr1.Grammar._items (C08 / C09: the canonical collection and its GOTO table, "goto sharing"): one iteration of its
+    `while i < len(item_list)` loop, from a state list without duplicates whose index map is its inverse (loop invariant,
+    re-established), for every shape of the state's goto sets - each an EXISTING state's item set or a NEW one, two
+    symbols possibly leading to the same new set:
+
+        goto_table[i][X]  is the index of the state whose item set equals goto(I_i, X) - the existing state if there is one
+                          (never a duplicate), else a state appended in this round; equal new sets share one new state
+        new states are appended in the order of the sorted symbols; existing states keep their numbers; i advances by one"""
+    info = pyvc.load_function("compiler.front_end.lr1.Grammar._items")
+    loops = [n for n in info.node.body if isinstance(n, ast.While)]
+    if len(loops) != 1:
+        raise core.CheckerError("anchor mismatch: Grammar._items: expected one while loop")
+    k = info.node.body.index(loops[0])
+    names = {}
+    for n in info.node.body[:k]:
+        if isinstance(n, ast.Assign) and len(n.targets) == 1 and isinstance(n.targets[0], ast.Name):
+            src = ast.unparse(n.value)
+            if src.startswith("[frozenset("):
+                names["item_list"] = n.targets[0].id
+            elif src.startswith("{") and src.endswith(": 0}"):
+                names["items"] = n.targets[0].id
+            elif src == "collections.defaultdict(dict)":
+                names["goto_table"] = n.targets[0].id
+            elif src == "0":
+                names["i"] = n.targets[0].id
+    if sorted(names) != ["goto_table", "i", "item_list", "items"]:
+        raise core.CheckerError("anchor mismatch: Grammar._items: cannot identify its state variables (%s)" % sorted(names))
+    import collections
+    eng = pyvc.Engine()
+    eng.contract(frozenset, lambda interp, xs=(): frozenset(xs), "frozenset")
+
+    def harness(c):
+        nstates = int(c.choice("states-so-far", ["1", "2", "3"]))
+        cur = int(c.choice("current-state", [str(j) for j in range(nstates)]))
+        shape = c.choice("goto-sets", ["none", "x:new", "x:old0", "x:new y:new-same", "x:new y:new-other", "x:old0 y:new z:old-last", "y:new x:new-other z:new-same-as-x"])
+        sets = [frozenset({"s%d" % j}) for j in range(nstates)]
+        item_list = list(sets)
+        items = {s: j for j, s in enumerate(sets)}
+        goto_table = collections.defaultdict(dict)
+        goto_table[99]["q"] = 5
+        NEW = {"new": {"n1"}, "new-same": {"n1"}, "new-other": {"n2"}, "new-same-as-x": {"n2"}, "old0": set(sets[0]), "old-last": set(sets[-1])}
+        gotos = {}
+        for part in shape.split():
+            if part == "none":
+                continue
+            sym, what = part.split(":")
+            gotos[sym] = set(NEW[what])
+        me = GObj("grammar", methods={"_parallel_goto": lambda interp, obj, item_set: (c.oblige("goto-is-computed-for-the-current-state", item_set == sets[cur]), dict(gotos))[1]})
+        it = pyvc.Interp(c, info)
+        it.env = {"self": me, names["item_list"]: item_list, names["items"]: items, names["goto_table"]: goto_table, names["i"]: cur}
+        c.covered = True
+        it.block(loops[0].body)
+        c.oblige("advances-to-the-next-state", it.env[names["i"]] == cur + 1)
+        c.oblige("invariant:no-duplicate-states-and-the-index-map-is-the-inverse", len(set(item_list)) == len(item_list) and items == {s: j for j, s in enumerate(item_list)}, detail=repr(item_list)[:200])
+        c.oblige("existing-states-keep-their-numbers", item_list[:nstates] == sets)
+        row = goto_table.get(cur, {})
+        c.oblige("one-goto-entry-per-symbol", sorted(row) == sorted(gotos), detail=repr(row))
+        ok = all(0 <= row[s] < len(item_list) and item_list[row[s]] == frozenset(gotos[s]) for s in gotos if s in row)
+        c.oblige("goto-entry-is-the-state-with-exactly-that-item-set", ok, detail=repr(row))
+        new_in_order = []
+        for s in sorted(gotos):
+            fs = frozenset(gotos[s])
+            if fs not in sets and fs not in new_in_order:
+                new_in_order.append(fs)
+        c.oblige("new-states-appended-once-in-sorted-symbol-order", item_list[nstates:] == new_in_order, detail=repr(item_list[nstates:]))
+        c.oblige("frame:other-rows-untouched", goto_table[99] == {"q": 5} and set(goto_table) <= {cur, 99})
+    paths = eng.explore(harness)
+    return pyvc.collect(paths, "Grammar._items.step"), sum(1 for p in paths if p.covered)
+
+
+TARGETS["items_step"] = target_items_step
